@@ -112,3 +112,50 @@ Definition C14r_check (c : C14r_case) : verdict :=
       if multiset_eqb q (map d_key_of (on_related_event (r_cfg c) (r_answers c) ps ev)) then OK
       else DIVERGE "related-parents"
   end.
+
+(* ---- several controllers over ONE shared informer factory (leg C14m): the event
+   travels through the simulator's watch and the real shared-informer fan-out;
+   per controller instance: was it running, is it subscribed to the event's
+   resource (as parent or child resource), its parent cache, the keys its queue
+   received until the delivery barrier ---- *)
+Record C14m_ctl := mkC14mCtl {
+  m_cfg : ecfg;
+  m_running : bool;
+  m_src : option src;          (* None: the controller does not watch the event's resource *)
+  m_parents : list json;
+  m_keys : list string
+}.
+
+Record C14m_case := mkC14m { m_ev : event; m_ctls : list C14m_ctl }.
+
+Definition C14m_ctl_check (ev : event) (x : C14m_ctl) : verdict :=
+  let q := m_keys x in
+  if negb (m_running x) then (if nonempty q then PROPFAIL "stopped-controller-woken" else OK) else
+  match m_src x with
+  | None => if nonempty q then PROPFAIL "wrong-parent-woken" else OK
+  | Some s =>
+      let fl := FComposite (m_cfg x) in
+      let ps := m_parents x in
+      if negb (in_domain fl ps s ev) then SKIP "names-outside-domain" else
+      let cands := candidates ps s ev in
+      if existsb (fun p => affects (m_cfg x) s ev p && negb (mem_str (key_of p) q)) cands
+      then PROPFAIL "running-controller-missed-event" else
+      if negb (forallb (fun k => existsb (fun p => String.eqb (key_of p) k && affects (m_cfg x) s ev p) cands) q)
+      then PROPFAIL "wrong-parent-woken" else
+      if multiset_eqb q (handle (m_cfg x) ps s ev) then OK else DIVERGE "queue-keys"
+  end.
+
+(* the first PROPFAIL over all controllers decides; else the first DIVERGE; else SKIP/OK *)
+Definition verdict_rank (v : verdict) : nat :=
+  match v with PROPFAIL _ => 3 | DIVERGE _ => 2 | SKIP _ => 1 | OK => 0 end.
+
+Fixpoint C14m_first (ev : event) (l : list C14m_ctl) (best : verdict) : verdict :=
+  match l with
+  | [] => best
+  | x :: l' =>
+      let v := C14m_ctl_check ev x in
+      C14m_first ev l' (if Nat.ltb (verdict_rank best) (verdict_rank v) then v else best)
+  end.
+
+Definition C14m_check (c : C14m_case) : verdict :=
+  if negb (event_wf (m_ev c)) then SKIP "tombstone-key-not-of-object" else C14m_first (m_ev c) (m_ctls c) OK.
